@@ -483,6 +483,35 @@ pub fn scenarios(quick: bool) -> Vec<Scenario> {
     v
 }
 
+/// executions a deviation level may have to be started in the quick tier (per scenario)
+pub fn quick_level_cap(prop: &str) -> u64 {
+    let scale: f64 = std::env::var("VERIF_WORK_SCALE").ok().and_then(|s| s.parse().ok()).unwrap_or(1.0);
+    let base = match prop {
+        "C01" => 170_000.0,
+        "C06" => 140_000.0,
+        "C02" => 180_000.0,
+        "C07" => 400_000.0,
+        _ => 120_000.0,
+    };
+    (base * scale) as u64
+}
+
+/// relative cost of one execution of a scenario, from its specification alone: the octets it moves (large bodies and
+/// header blocks make an execution many times dearer than the number of its choice points suggests)
+pub fn scenario_weight(sc: &Scenario) -> f64 {
+    let msg = |m: &MsgSpec| -> usize {
+        let head = match m.head {
+            HeadKind::Tiny => 50,
+            HeadKind::Repeated => 300,
+            HeadKind::Big20k => 30_000,
+            HeadKind::Big40k => 60_000,
+        };
+        head + m.chunks.iter().sum::<usize>() + 60 * m.interim as usize
+    };
+    let octets: usize = sc.streams.iter().map(|s| msg(&s.req) + msg(&s.resp) + s.push.as_ref().map(|p| msg(p)).unwrap_or(0)).sum();
+    1.0 + octets as f64 / 4000.0
+}
+
 pub fn run_t1_property(
     ctx: &Ctx,
     prop: &'static str,
@@ -509,14 +538,28 @@ pub fn run_t1_property(
             out.machinery_errors.push(format!("scenario {} is not deterministic (two default executions differ)", sc.name));
         }
     }
+    // quick tier: one work-bounded exploration per scenario (a level is started iff it has at most `cap` executions - known
+    // exactly beforehand), no time-dependent decisions
+    let quick_cap: Option<u64> = if ctx.tier.is_quick() { Some(quick_level_cap(prop)) } else { None };
+    if let Some(cap) = quick_cap {
+        for (i, sc) in scs.iter().enumerate() {
+            let left = (ctx.hard_cap_s() - ctx.elapsed()).max(1.0);
+            let deadline = std::time::Instant::now() + std::time::Duration::from_secs_f64(left);
+            let h = T1Harness { prop, sc, sc_index: i, pol: pol.clone(), judge };
+            reports[i] = Some(explore(&h, &ExploreCfg::work_bounded(max_dev, deadline, false, (cap as f64 / scenario_weight(sc)) as u64)));
+        }
+    }
     let total_budget = ctx.remaining().max(1.0);
     for (i, sc) in scs.iter().enumerate() {
+        if quick_cap.is_some() {
+            break;
+        }
         let share = (total_budget * 0.35) / n as f64;
         let deadline = std::time::Instant::now() + std::time::Duration::from_secs_f64(share.max(0.5));
         let h = T1Harness { prop, sc, sc_index: i, pol: pol.clone(), judge };
         reports[i] = Some(explore(&h, &ExploreCfg::new(max_dev.min(1), deadline, false)));
     }
-    if max_dev > 1 {
+    if max_dev > 1 && quick_cap.is_none() {
         let mut order: Vec<usize> = (0..n).collect();
         order.sort_by_key(|&i| {
             let r = reports[i].as_ref().unwrap();
@@ -541,7 +584,7 @@ pub fn run_t1_property(
     }
     // pass C: whatever budget is left goes, cheapest first, to the scenarios that have not reached the bound yet - each
     // may use all that remains (the explorer still refuses a level it cannot finish)
-    if max_dev > 1 {
+    if max_dev > 1 && quick_cap.is_none() {
         let mut order: Vec<usize> = (0..n).filter(|&i| reports[i].as_ref().map(|r| r.completed_level.unwrap_or(0) < max_dev && r.completed_level.is_some()).unwrap_or(false)).collect();
         order.sort_by_key(|&i| {
             let r = reports[i].as_ref().unwrap();
